@@ -187,6 +187,36 @@ fn long_word_case(len: usize, k: usize) -> KyteaCase {
     case
 }
 
+/// A small KyTea file whose character map is extended by unused characters (the numbers of the
+/// used ones stay) to `target` bytes of UTF-8, or to the format's limit of 65,535 characters when
+/// `target` is 0.
+fn big_char_map_case(target: usize, k: usize) -> KyteaCase {
+    let mut case = long_word_case(5, k);
+    let used: std::collections::HashSet<char> = case.file.char_map.chars().collect();
+    let three = (0x3400u32..=0x4DBF).chain(0x4E00..=0x9FFF).chain(0xAC00..=0xD7A3).chain(0xA000..=0xA48C).filter_map(char::from_u32);
+    let mut three = three.filter(|c| !used.contains(c));
+    let mut one = "~}{|`^_][@?>=<;:".chars().filter(|c| !used.contains(c));
+    let map = &mut case.file.char_map;
+    if target == 0 {
+        let mut n = map.chars().count();
+        let mut four = (0x20000u32..0x2A6DF).filter_map(char::from_u32).filter(|c| !used.contains(c));
+        while n < 65_535 {
+            map.push(if n % 2 == 0 { three.next() } else { four.next() }.expect("enough characters"));
+            n += 1;
+        }
+    } else {
+        assert!(map.len() <= target);
+        for _ in 0..(target - map.len()) % 3 {
+            map.push(one.next().expect("enough one-byte characters"));
+        }
+        while map.len() < target {
+            map.push(three.next().expect("enough three-byte characters"));
+        }
+        assert_eq!(map.len(), target);
+    }
+    case
+}
+
 /// A KyTea file with `n_words` dictionary words (seven characters over six letters) and a few
 /// hundred n-grams: the converted model is far larger than any I/O buffer (about 25 bytes per
 /// word).
@@ -253,6 +283,24 @@ and 4,096) in one and two member dictionaries, buckets 1, 3 and 4: same oracle a
             .enumerate()
             .map(|(k, l)| long_word_case(l, k)),
         |c: &KyteaCase| test_file(&c.file, &c.texts, false).map(|mut i| { i.nontrivial = true; i }),
+    );
+    rep.run_enum(
+        "big-character-maps",
+        "small KyTea files whose character map is extended by unused characters to 65,534..65,538, \
+66,500 and 100,000 bytes of UTF-8 and to the format's limit of 65,535 characters (about 229 KB), \
+through the library (prefixes strided) and the shipped convert_kytea_model program: same oracles",
+        false,
+        [65_534usize, 65_535, 65_536, 65_537, 65_538, 66_500, 100_000, 0]
+            .into_iter()
+            .enumerate()
+            .map(|(k, t)| big_char_map_case(t, k)),
+        |c: &KyteaCase| {
+            test_file(&c.file, &c.texts, false)?;
+            test_tool(&c.file).map(|mut i| {
+                i.nontrivial = true;
+                i
+            })
+        },
     );
     let n = rep.n(1500, 100000);
     rep.run_prop(
